@@ -56,6 +56,7 @@ Case gen_C09(uint64_t seed, long run, const GenCfg &g, const char *inflight) {
     // slice-length mixture drawn per run: fine (inner-loop interleavings), medium, coarse (call-level orders)
     double a = r.unit(), b = r.unit(), cc = r.unit(), d = r.unit() * 0.5, sum = a + b + cc + d;
     c.w_fine = a / sum; c.w_mid = b / sum; c.w_coarse = cc / sum; c.pct_d = r.range(1, 3);
+    { static const uint64_t sp[] = {20000, 100000, 400000, 1500000}; c.pct_span = sp[r.below(4)]; }
     if (history_mode) { c.note = "history"; c.prior_plans = 1 + (int)r.below(G_NUM - 1); } // dirty garbage mode for the history run
     if (inflight) write_inflight(inflight, c);
     return c;
@@ -64,6 +65,16 @@ Case gen_C09(uint64_t seed, long run, const GenCfg &g, const char *inflight) {
 RunOutcome exec_C09(const Case &c) {
     RunOutcome out; if (c.tasks.empty()) return out;
     Hash64 h; int nt = (int)c.tasks.size();
+    bool history = (c.note == "history");
+    // ---- concurrent phase FIRST: in a fresh process the tasks' very first library calls then happen on different threads,
+    //      so one-time initialisation of hidden static state is exercised concurrently too (the solo runs come afterwards) ----
+    ConcurrentResult cr;
+    if (!history) {
+        SchedConfig sc; sc.mode = c.sched_mode; sc.seed = c.sched_seed; sc.w_fine = c.w_fine; sc.w_mid = c.w_mid; sc.w_coarse = c.w_coarse; sc.pct_d = c.pct_d; sc.total_steps_hint = c.pct_span;
+        if (!c.schedule.empty()) { sc.mode = SM_REPLAY; sc.replay = c.schedule.data(); sc.nreplay = (int)c.schedule.size(); }
+        cr = run_plans_concurrent(c.tasks, c09_cfg(), sc);
+        out.schedule = cr.sched.slices;
+    }
     // ---- solo phase: every plan alone, scheduler off ----
     std::vector<PlanRun> solo(nt);
     bool singular = false, inconclusive = false; uint64_t total = 0;
@@ -79,16 +90,18 @@ RunOutcome exec_C09(const Case &c) {
         }
     }
     out.stats["sim_edges"] += (double)total;
-    if (inconclusive) { out.stats["runs_inconclusive_hang"] += 1; out.hash = h.h; return out; }
+    if (inconclusive) { out.stats["runs_inconclusive_hang"] += 1; out.hash = h.h; out.schedule.clear(); return out; }
     std::ostringstream s;
     s << "{\"tasks\":[";
     for (int i = 0; i < nt; i++) { s << (i ? "," : "") << "\"" << c.tasks[i].dtype << ":"; for (auto &o : c.tasks[i].ops) if (o.kind != "new" && o.kind != "destroy") s << op_brief(o) << " "; s << "\""; }
     s << "]";
-    if (c.note == "history") {
-        // ---- history independence: the last plan after the others, in one thread, under dirty fresh memory ----
+    if (history) {
+        // ---- history independence: the plans one after the other in one thread, under dirty fresh heap AND workspace memory ----
         out.stats["history_runs"] += 1;
         if (singular) { out.stats["dirty_pass_skipped_singular"] += 1; out.hash = h.h; s << ",\"mode\":\"history(skipped: singular)\"}"; out.sample = s.str(); return out; }
-        std::vector<PlanRun> seq = run_plans_sequential(c.tasks, c09_cfg(), c.prior_plans);
+        std::vector<TaskPlan> dirty = c.tasks;
+        for (auto &t : dirty) for (auto &o : t.ops) o.wsgarbage = c.prior_plans;
+        std::vector<PlanRun> seq = run_plans_sequential(dirty, c09_cfg(), c.prior_plans);
         out.stats[std::string("garbage_") + kGarbageName[c.prior_plans]] += 1;
         for (int i = 0; i < nt; i++) {
             h.u64(seq[i].evhash);
@@ -104,11 +117,7 @@ RunOutcome exec_C09(const Case &c) {
         s << ",\"mode\":\"history under " << kGarbageName[c.prior_plans] << " fresh memory\"}"; out.sample = s.str();
         return out;
     }
-    // ---- concurrent phase ----
-    SchedConfig sc; sc.mode = c.sched_mode; sc.seed = c.sched_seed; sc.w_fine = c.w_fine; sc.w_mid = c.w_mid; sc.w_coarse = c.w_coarse; sc.pct_d = c.pct_d; sc.total_steps_hint = total;
-    if (!c.schedule.empty()) { sc.mode = SM_REPLAY; sc.replay = c.schedule.data(); sc.nreplay = (int)c.schedule.size(); }
-    ConcurrentResult cr = run_plans_concurrent(c.tasks, c09_cfg(), sc);
-    out.schedule = cr.sched.slices;
+    // ---- compare the concurrent run with the solo runs ----
     out.stats["concurrent_runs"] += 1; out.stats["tasks"] += nt;
     out.stats["preempt_switches"] += (double)cr.sched.switches; out.stats["preempt_switches_in_library"] += (double)cr.sched.switches_in_library;
     out.stats["max_switches_per_run"] = (double)cr.sched.switches;
@@ -118,7 +127,7 @@ RunOutcome exec_C09(const Case &c) {
     for (int i = 0; i < nt; i++) {
         h.u64(cr.runs[i].evhash); ctotal += cr.runs[i].steps;
         for (size_t k = 0; k < cr.runs[i].trace.size() && k < solo[i].trace.size(); k++) {
-            for (auto &v : cr.runs[i].trace[k].violations) { size_t bar = v.find('|'); out.violations.push_back({v.substr(0, bar), "concurrent run, task " + std::to_string(i) + " op " + std::to_string(k) + ": " + v.substr(bar + 1), "C09|concurrent-" + v.substr(0, bar) + "|" + c.tasks[i].ops[k].kind}); }
+            for (auto &v : cr.runs[i].trace[k].violations) { size_t bar = v.find('|'); if (v.substr(0, bar) == "hang") continue; out.violations.push_back({v.substr(0, bar), "concurrent run, task " + std::to_string(i) + " op " + std::to_string(k) + ": " + v.substr(bar + 1), "C09|concurrent-" + v.substr(0, bar) + "|" + c.tasks[i].ops[k].kind}); }
             std::string df = snap_diff(solo[i].trace[k].snap, cr.runs[i].trace[k].snap);
             if (!df.empty()) { out.violations.push_back({"solo-vs-concurrent", "task " + std::to_string(i) + " (" + std::string(1, c.tasks[i].dtype) + ") op " + std::to_string(k) + " (" + op_brief(c.tasks[i].ops[k]) + "): field " + df + " differs from the same call executed alone (" + std::to_string(cr.sched.switches) + " context switches)", "C09|solo-vs-concurrent|" + c.tasks[i].ops[k].kind}); break; }
         }
